@@ -137,7 +137,12 @@ pub fn framing_spaces(tier: Tier) -> Vec<ByteSpace> {
 fn run_bytes(ctx: &mut Ctx, spaces: Vec<ByteSpace>, f: impl Fn(&[u8], &mut Local) + Sync) {
     super::bytes::placement_bound(ctx);
     let lim = super::bytes::cross_limit(ctx);
+    // in the unoptimised second build (common::unoptimised_build_pass) only the long inputs are run
+    let child = super::common::is_frames_child();
     for sp in spaces {
+        if child && !(sp.name.contains("giant") || sp.name.contains("chain")) {
+            continue;
+        }
         // the giants (strings of 64 KiB and more) rotate the address residue, see engine::place
         let lim = if sp.name.contains("giant") { 0 } else { lim };
         sp.run(ctx, &sp.name, lim, |s, l| {
@@ -299,6 +304,9 @@ pub fn c08(ctx: &mut Ctx) {
     }
     ctx.require_hit("accepted:Packet");
     ctx.require_hit("accepted:Unknown");
+    if !super::common::is_frames_child() {
+        super::common::unoptimised_build_pass(ctx, "the long inputs of the framing spaces (S6 giants, S6b giant runs and chunks, long tile chains)");
+    }
 }
 
 // ---------------------------------------------------------------------------------------------
@@ -569,6 +577,9 @@ pub fn c18(ctx: &mut Ctx) {
     ctx.require_hit("err:TooLarge");
     ctx.require_hit("err:PacketTypeMismatch");
     ctx.require_hit("err:InvalidPadding");
+    if !super::common::is_frames_child() {
+        super::common::unoptimised_build_pass(ctx, "the long inputs of the framing spaces (S6 giants, S6b giant runs and chunks, long tile chains)");
+    }
 }
 
 // ---------------------------------------------------------------------------------------------
@@ -645,6 +656,9 @@ pub fn c12(ctx: &mut Ctx) {
     ctx.require_hit("unknown-exposes-input");
     ctx.require_hit("well-framed unknown type accepted");
     ctx.require_hit("dispatch-agrees:inside-a-compound");
+    if !super::common::is_frames_child() {
+        super::common::unoptimised_build_pass(ctx, "the long inputs of the framing spaces (S6 giants, S6b giant runs and chunks, long tile chains)");
+    }
 }
 
 fn c12_case(s: &[u8], l: &mut Local) {
